@@ -7,7 +7,7 @@ for d in seeded/*/; do
   id=$(basename $d)
   prop=$(/venv/bin/python -c "import json;m=json.load(open('$d/meta.json'));print(m['detected_by_check'] if m['detected_by_check']!='none' else m['breaks_property'])")
   tier=$(/venv/bin/python -c "import json;m=json.load(open('$d/meta.json'));print(m.get('tier_needed','quick'))")
-  if ! git -C /repo apply --check $d/patch.diff 2>/dev/null; then echo "$id $prop APPLY-FAILED" >> $out.tmp; continue; fi
+  if ! git -C /repo apply --check $(readlink -f $d/patch.diff) 2>/dev/null; then echo "$id $prop APPLY-FAILED" >> $out.tmp; continue; fi
   if [ "$tier" = "thorough" ]; then r=$(tools/try_mutant.sh $d/patch.diff $prop 400 thorough | tail -1); else r=$(tools/try_mutant.sh $d/patch.diff $prop ${1:-60} | tail -1); fi
   echo "$id check=$prop tier=$tier $r" >> $out.tmp
 done
